@@ -37,6 +37,7 @@ REGISTRY = {
     'semi': {'*': [dict(kind='egg', file='replays/semi/seminaive.egg'), dict(kind='egg', file='replays/semi/seminaive.egg', args=('--naive',)),
                    dict(kind='egg', file='replays/semi/nullary_delta.egg'), dict(kind='egg', file='replays/semi/nullary_delta.egg', args=('--naive',))]},
     'uf': {'*': [dict(kind='harness', name='uf_partition')]},
+    'swt': {'*': [dict(kind='harness', name='table_api')]},
     'insert': {'*': [dict(kind='egg', file='replays/merge/merge_and_subsume.egg'),
                      dict(kind='egg', file='replays/merge/parallel_in_batch_merge.egg', args=('-j', '4'), env={'EGGLOG_PARALLEL_TABLE_OP_CUTOFF': '0'}),
                      dict(kind='harness', name='table_api')]},
